@@ -126,7 +126,7 @@ Hypothesis Hnames : names_ok names = true.
 Hypothesis Hkinds : kinds_ok kinds = true.
 Hypothesis Hglobals : globals_ok S globals = true.
 
-Notation dec := (decode S names uris kinds globals false false).
+Notation dec := (decode S names uris kinds globals false true).
 Notation refn := (ref_node S names uris kinds).
 Notation flg := (flags_node S names uris kinds).
 
@@ -164,7 +164,7 @@ Lemma decode_unfold env decl cnil p nm x d ats txt ks :
            else match data with
                 | _ :: _ => DOk (PObj (Some (type_id real)) data)
                 | [] =>
-                    if is_nil env' ats || (false && uri_is_one (find_xsi env' ats s_nil)) then DOk PNone
+                    if is_nil true env' ats then DOk PNone
                     else if ht then DOk (translate real (match txt with Some t => t | None => [] end))
                     else if nokids then DOk (if cnil then PNone else PLeaf tag_str [])
                     else DOk PNone
@@ -392,17 +392,29 @@ Qed.
 Lemma lower_true : lower s_true = s_true.
 Proof. reflexivity. Qed.
 
+Lemma lower_one v : str_eqb (lower v) s_one = str_eqb v s_one.
+Proof.
+  destruct v as [|c r]; [reflexivity|]. unfold s_one. cbn [lower map str_eqb].
+  assert (H : N.eqb (lower_c c) 49 = N.eqb c 49).
+  { unfold lower_c. destruct ((65 <=? c) && (c <=? 90))%N eqn:E; [|reflexivity].
+    apply andb_true_iff in E as [E1 E2]. apply N.leb_le in E1, E2.
+    destruct (N.eqb (c + 32) 49) eqn:A; destruct (N.eqb c 49) eqn:B; try reflexivity.
+    - apply N.eqb_eq in A. lia.
+    - apply N.eqb_eq in B. lia. }
+  rewrite H. destruct r; reflexivity.
+Qed.
+
 Lemma is_nil_spec env ats ias :
-  omap (erase_attr env) ats = Some ias -> nil_ok env ats = true -> is_nil env ats = spec_nil ias.
+  omap (erase_attr env) ats = Some ias -> nil_ok env ats = true -> is_nil true env ats = spec_nil ias.
 Proof.
   intros H Hok. unfold is_nil, spec_nil, nil_ok in *.
   rewrite (find_xsi_text env s_nil s_nil_not_type _ _ H).
-  destruct (find_xsi env ats s_nil) as [v|]; cbn [option_map]; [|reflexivity].
-  apply orb_true_iff in Hok as [Hok|Hok].
-  - apply str_eqb_true in Hok. subst. reflexivity.
-  - apply andb_true_iff in Hok as [H1 H2]. apply negb_true_iff in H1, H2. rewrite H1, H2.
-    destruct (str_eqb v s_true) eqn:E; [|reflexivity].
-    apply str_eqb_true in E. subst. rewrite lower_true in H1. discriminate.
+  destruct (find_xsi env ats s_nil) as [v|]; cbn [option_map andb]; [|reflexivity].
+  rewrite lower_one.
+  destruct (str_eqb v s_one) eqn:E1; [now rewrite !orb_true_r|]. rewrite !orb_false_r in *.
+  destruct (str_eqb v s_true) eqn:E2.
+  - apply str_eqb_true in E2. subst. reflexivity.
+  - cbn [orb] in Hok. apply negb_true_iff in Hok. exact Hok.
 Qed.
 
 Lemma skip_xsi env a ia : erase_attr env a = Some ia -> is_xsi ia = true -> skip_attr env a = true.
